@@ -33,15 +33,18 @@ Definition step_ok (st : dstate) (t : T) (st1 : dstate) (t1 : T) : Prop :=
           ((ts2 = [] /\ pf st1 = fieldDone) \/ (pfv st1 = true /\ st_tokens st1 = Some ts2 /\ (blen st1 < blen st)%nat)))
   end.
 
+(* B bounds the length of the buffers the readers are used on (their loops carry fuel B + 3) *)
+Variable B : nat.
+
 Definition reader_ok (r : reader T dstate) : Prop := forall st t,
-  err st = None -> bytes_ok (buf st) -> rmatch _ _ r st = true ->
+  (blen st <= B)%nat -> err st = None -> bytes_ok (buf st) -> rmatch _ _ r st = true ->
   let '(st1, t1) := rrun _ _ r st t in step_ok st t st1 t1.
 Definition reader_sticky (r : reader T dstate) : Prop := forall st t, err st <> None -> err (fst (rrun _ _ r st t)) <> None.
 
 Variable readers : list (reader T dstate).
 Hypothesis readers_ok : forall r, In r readers -> reader_ok r.
 Hypothesis readers_sticky : forall r, In r readers -> reader_sticky r.
-Hypothesis skip_ok : forall st t, err st = None -> bytes_ok (buf st) -> pfv st = true ->
+Hypothesis skip_ok : forall st t, (blen st <= B)%nat -> err st = None -> bytes_ok (buf st) -> pfv st = true ->
   find (fun r => rmatch _ _ r st) readers = None -> step_ok st t (skip st) t.
 
 Lemma skip_sticky st : err st <> None -> err (skip st) <> None.
@@ -61,7 +64,7 @@ Lemma pfv_done st : pf st = fieldDone -> pfv st = false.
 Proof. intros E. unfold pfv. rewrite E. reflexivity. Qed.
 
 Theorem loop1_stream n : forall st t,
-  (blen st + 2 <= n)%nat -> err st = None -> bytes_ok (buf st) -> pfv st = true ->
+  (blen st + 2 <= n)%nat -> (blen st <= B)%nat -> err st = None -> bytes_ok (buf st) -> pfv st = true ->
   let '(st', t') := loop1 T dstate pfv skip readers n st t in
   match st_tokens st with
   | None => err st' <> None
@@ -71,7 +74,7 @@ Theorem loop1_stream n : forall st t,
                end
   end.
 Proof.
-  induction n as [|n IH]; intros st t Hn He Hb Hv; [lia|].
+  induction n as [|n IH]; intros st t Hn HB He Hb Hv; [lia|].
   cbn [loop1]. rewrite Hv. cbn [negb].
   assert (Hstep : forall st1 t1, step_ok st t st1 t1 ->
             let '(st', t') := loop1 T dstate pfv skip readers n st1 t1 in
@@ -87,12 +90,12 @@ Proof.
       + rewrite Hf. pose proof (loop1_sticky n st1 t1 He1) as Hk. destruct (loop1 T dstate pfv skip readers n st1 t1). exact Hk.
       + rewrite Ets, fold_opt_app, Hf. destruct Hnext as [[-> Hd]|[Hv1 [Es1 Hlt]]].
         * cbn [fold_opt fold_left]. destruct n as [|n']; cbn [loop1]; [auto|]. rewrite (pfv_done st1 Hd). cbn [negb]. auto.
-        * specialize (IH st1 t1 ltac:(lia) He1 Hb1 Hv1). rewrite Es1 in IH. exact IH.
+        * specialize (IH st1 t1 ltac:(lia) ltac:(lia) He1 Hb1 Hv1). rewrite Es1 in IH. exact IH.
     - destruct Hs as [He1|[He1 [Hv1 [Es1 Hlt]]]].
       + pose proof (loop1_sticky n st1 t1 He1) as Hk. destruct (loop1 T dstate pfv skip readers n st1 t1). exact Hk.
-      + specialize (IH st1 t1 ltac:(lia) He1 Hb1 Hv1). rewrite Es1 in IH. exact IH. }
+      + specialize (IH st1 t1 ltac:(lia) ltac:(lia) He1 Hb1 Hv1). rewrite Es1 in IH. exact IH. }
   destruct (find (fun r => rmatch _ _ r st) readers) as [r|] eqn:Ef.
-  - pose proof (find_some _ _ Ef) as [Hin Hm]. pose proof (readers_ok r Hin st t He Hb Hm) as Hr.
+  - pose proof (find_some _ _ Ef) as [Hin Hm]. pose proof (readers_ok r Hin st t HB He Hb Hm) as Hr.
     destruct (rrun _ _ r st t) as [st1 t1]. apply Hstep. exact Hr.
   - apply Hstep. apply skip_ok; assumption.
 Qed.
